@@ -1,12 +1,11 @@
 import XC.Model.C16
 namespace XC.C16
 
-/-- the memory guard shared with the harness: an accepted parameter set is only run when
-    128·r·N ≤ 64 MiB, p·128·r ≤ 64 MiB and keyLen ≤ 2^20 or beyond the pbkdf2 block limit
-    (where crypto/pbkdf2 refuses before allocating) -/
+/-- the memory / run-time guard shared with the harness: an accepted parameter set is only run when
+    128·r·N ≤ 64 MiB, p·128·r ≤ 1 MiB, p·r·N ≤ 2^18 and keyLen ≤ 2^16 -/
 def tooBig (n r p keyLen : Int) : Bool :=
   validate n r p keyLen == .accept &&
-    (128 * r * n > 2 ^ 26 || p * 128 * r > 2 ^ 26 || (keyLen > 2 ^ 20 && keyLen ≤ (2 ^ 32 - 1) * 32))
+    (128 * r * n > 2 ^ 26 || p * 128 * r > 2 ^ 20 || p * r * n > 2 ^ 18 || keyLen > 2 ^ 16)
 
 /-- `key pw=<hex> salt=<hex> N=<int> r=<int> p=<int> keyLen=<int>` → `ok <hex>` | `err` | `panic` -/
 def handle (line : String) : String :=
